@@ -36,6 +36,7 @@ type c11Metric struct {
 	D      []time.Duration   `json:"spec_durations,omitempty"`
 	CntV   map[float64]int64 `json:"-"`
 	CntD   map[time.Duration]int64
+	Made   bool
 	NaNs   int64
 }
 
@@ -364,12 +365,24 @@ func c11History(c *mon.Ctx, r *mon.Rand) {
 				ops = append(ops, fmt.Sprintf("%s.Timer(%q).Record(%d)", s.id.Prefix, name, d))
 			case op <= 8:
 				m := get("histogram", s, name+"h")
-				if m.V == nil && m.D == nil {
+				if !m.Made {
+					m.Made = true
 					if r.Bool() {
 						m.IsDur = true
 						m.D = r.DurationSpec(6)
 					} else {
 						m.V = r.ValueSpec(6)
+					}
+					if r.Chance(1, 8) {
+						// a specification without bounds (empty, not nil): one bucket
+						// of the requested kind that covers everything
+						m.V, m.D = m.V[:0], m.D[:0]
+						if m.IsDur {
+							m.D = []time.Duration{}
+						} else {
+							m.V = []float64{}
+						}
+						c.Class("histograms-with-an-empty-specification", 1)
 					}
 				}
 				if m.IsDur {
